@@ -223,6 +223,8 @@ class RelativeSequence(AbstractSequence):
                     if len(current_sequence._messages) > 0:
                         split_sequences.append(current_sequence)
                         current_sequence = next_sequence
+                    # Messages deferred to the next sequence must not get lost
+                    current_sequence._messages.extend(next_sequence_queue)
                     break
 
                 # Retrieve next message
